@@ -1,6 +1,6 @@
 (* Pool/PoolProofs.v — proofs about the pool model (Pool/PoolMap.v, Pool/Inv.v). *)
 From Coq Require Import List NArith Bool Lia.
-From CKB Require Import Pool.PoolMap Pool.Inv Pool.Check Pool.Witness.
+From CKB Require Import Pool.PoolMap Pool.Inv Pool.Check Pool.Witness Pool.ListFacts Pool.CounterProofs.
 Import ListNotations.
 Local Open Scope N_scope.
 
@@ -42,4 +42,11 @@ Proof. wit2. Qed.
 (* F9: add_entry panics on a consistent pool although the callers' preconditions hold *)
 Lemma add_evict_panic_refuted :
   exists p, f9_before = Some p /\ pool_inv p = true /\ add_pre p nT = true /\ add_entry p nT Pending = None.
+Proof. wit1. Qed.
+
+(* non-vacuity of the hypotheses of counters_step / counters_reachable: the diamond
+   history never saturates, and its final state satisfies the counter clause *)
+Lemma diamond_small : run_small (empty_pool 125) diamond_ops.
+Proof. vm_compute. repeat split; try (intro; discriminate). Qed.
+Lemma diamond_counters : exists p, diamond_state = Some p /\ counters_ok p = true.
 Proof. wit1. Qed.
